@@ -16,18 +16,32 @@ def main():
     mon.use_tool_id(TOOL, "vf-import-log")
     target = os.path.join(env.REPO, "ctparse", "rule.py")
 
+    # the registration function is known by the name the rule module's decorators use (read from the syntax tree by the
+    # caller, default 'rule'); the inner function that receives the decorated definition is any function nested in it that
+    # is called with one argument, a function defined outside rule.py
+    regfns = set((os.environ.get("VF_RULE_FN") or "rule").split(","))
+
     def on_start(code, offset):
-        if code.co_filename != target or code.co_name not in ("rule", "fwrapper"):
+        if code.co_filename != target:
             return mon.DISABLE
+        qual = getattr(code, "co_qualname", code.co_name)
+        is_reg = code.co_name in regfns and qual == code.co_name
+        is_inner = any(qual.startswith(n + ".<locals>.") for n in regfns) and code.co_argcount == 1 and qual.count("<locals>") == 1
+        if not (is_reg or is_inner):
+            return mon.DISABLE if not any(qual.startswith(n) for n in regfns) else None
         fr = sys._getframe(1)
-        if code.co_name == "rule":
+        if is_inner:
+            a0 = fr.f_locals.get(code.co_varnames[0]) if code.co_varnames else None
+            if not (hasattr(a0, "__code__") and a0.__code__.co_filename != target):
+                return None
+        if is_reg:
             pats = fr.f_locals.get("patterns", ())
             caller = fr.f_back
             events.append({"ev": "rule", "line": caller.f_lineno if caller else None,
                            "file": os.path.relpath(caller.f_code.co_filename, env.REPO) if caller else None,
                            "patterns": [p if isinstance(p, str) else "<%s>" % getattr(p, "__name__", "pred") for p in pats]})
         else:
-            f = fr.f_locals.get("f")
+            f = fr.f_locals.get(code.co_varnames[0])
             events.append({"ev": "register", "name": getattr(f, "__name__", None),
                            "line": getattr(getattr(f, "__code__", None), "co_firstlineno", None),
                            "file": os.path.relpath(f.__code__.co_filename, env.REPO) if hasattr(f, "__code__") else None})
